@@ -39,6 +39,11 @@ def _cfgs(tier, rng):
             fam = c["family"]
             c["mol"] = str(rng.choice(["H2O", "HF", "LiH", "NH3"] if c["spin"] == "rks" else ["NH2", "Li", "CH3", "H2O", "O2"]))
             c["basis"] = str(rng.choice(["6-31g", "sto-3g", "def2-svp"], p=[0.6, 0.2, 0.2]))
+            if fam in SX and c["spin"] == "rks":
+                # generally contracted shells (several radial functions on one set of primitives): the SDMX backward
+                # contraction walks (contraction, m) pairs - added after a seeded change there left features and energy
+                # bit-identical and only broke the XC matrix for such bases
+                c["basis"] = "cc-pvdz"
             c["level"] = int(rng.integers(0, 2))
             c["mode"] = str(rng.choice(["SEP", "NPOL", "POL"], p=[0.6, 0.2, 0.2]))
             c["evaluator"] = str(rng.choice(["rbf", "kernel", "linear", "rbf+linear", "kernel+subrbf", "rbf+subrbf"],
